@@ -260,6 +260,21 @@ func ruleC09Clear(cx *Ctx) {
 					}
 				case eff != "unchanged":
 					a.check(name+" "+eff+": clears the in-flight record", clears >= 1, "a write clears the key's in-flight load record inside the computation", fmt.Sprintf("%d clear(s) of %s", clears, c.key), o)
+				default:
+					// an operation that decides not to write must leave a running load alone: dropping its record lets a
+					// second load of the key start while the first is still running, and discards the first one's result
+					noWrite := spec.kind == "setIfAbsent"
+					if strings.HasPrefix(spec.kind, "compute") {
+						pc := cx.consts(rule)
+						for atom, v := range o.S.preds {
+							if v && pc.ok && strings.HasPrefix(atom, "Eq(user:") && strings.HasSuffix(atom, ".1,"+pc.cancelOp+")") {
+								noWrite = true
+							}
+						}
+					}
+					if noWrite {
+						a.check(name+" no write: in-flight record kept", clears == 0, "an operation that leaves the mapping as it is (SetIfAbsent on a live key, a cancelled compute) does not drop the key's in-flight load record", fmt.Sprintf("%d clear(s)", clears), o)
+					}
 				}
 			}
 		}
